@@ -488,7 +488,7 @@ def save_score_midi(
             # converted into a (track, channel) pair.
             key = (pg, part, note.voice)
             events[key][to_ppq(note.start.t)].append(
-                Message("note_on", note=note.midi_pitch)
+                Message("note_on", note=note.midi_pitch, velocity=velocity)
             )
             events[key][to_ppq(note.start.t + note.duration_tied)].append(
                 Message("note_off", note=note.midi_pitch)
